@@ -12,6 +12,11 @@ type requestCookie struct {
 	drop   bool
 }
 
+type responseCookie struct {
+	line   []byte
+	except bool
+}
+
 // New creates a new middleware handler
 func New(config ...Config) fiber.Handler {
 	// Set default config
@@ -66,23 +71,34 @@ func New(config ...Config) fiber.Handler {
 		// Continue stack
 		err := c.Next()
 
-		// Encrypt response cookies
-		c.Response().Header.VisitAllCookie(func(key, _ []byte) {
-			keyString := string(key)
-			if !isDisabled(keyString, cfg.Except) {
-				cookieValue := fasthttp.Cookie{}
-				cookieValue.SetKeyBytes(key)
-				if c.Response().Header.Cookie(&cookieValue) {
-					encryptedValue, err := cfg.Encryptor(string(cookieValue.Value()), cfg.Key)
-					if err != nil {
-						panic(err)
-					}
-
-					cookieValue.SetValue(encryptedValue)
-					c.Response().Header.SetCookie(&cookieValue)
-				}
-			}
+		// Encrypt response cookies. A response can carry several cookies of one name (different
+		// Path or Domain, added through the header API), and Header.Cookie / Header.SetCookie only
+		// ever reach the first entry of a name: take every Set-Cookie entry on its own and add
+		// them again in their original order.
+		var entries []responseCookie
+		c.Response().Header.VisitAllCookie(func(key, value []byte) {
+			entries = append(entries, responseCookie{
+				except: isDisabled(string(key), cfg.Except),
+				line:   append([]byte(nil), value...),
+			})
 		})
+		c.Response().Header.DelAllCookies()
+		for i := range entries {
+			if !entries[i].except {
+				cookieValue := fasthttp.Cookie{}
+				// Name and value are parsed first, an error can only come from a later attribute
+				// (as in Header.Cookie, which ignores it as well)
+				_ = cookieValue.ParseBytes(entries[i].line) //nolint:errcheck // see above
+				encryptedValue, encErr := cfg.Encryptor(string(cookieValue.Value()), cfg.Key)
+				if encErr != nil {
+					panic(encErr)
+				}
+
+				cookieValue.SetValue(encryptedValue)
+				entries[i].line = append(entries[i].line[:0], cookieValue.Cookie()...)
+			}
+			c.Response().Header.AddBytesV(fiber.HeaderSetCookie, entries[i].line)
+		}
 
 		return err
 	}
